@@ -370,6 +370,14 @@ def pp(e, depth=0):
         return "yield %s" % pp(e["e"])
     if k == "Expr":
         return pp(e["e"])
+    if k == "Try":
+        return pp(e["e"]) + "?"
+    if k == "Await":
+        return pp(e["e"]) + ".await"
+    if k == "For":
+        return "for %s in %s %s" % (pp_pat(e["pat"]), pp(e["iter"]), pp(e["body"]))
+    if k == "While":
+        return "while %s %s" % (pp(e["cond"]), pp(e["body"]))
     return "<%s>" % k
 
 
